@@ -132,6 +132,8 @@ def _dir_pipeline(pl, sd, fix, info, cid):
     args = ["-dir", dspell, "-baseURL", base, "-version", p1["ver"], "-o", out]
     if p1["ver"] == "b1":
         args += ["-primaryURL", base + names[-1].split("/")[0] if False else base, "-ignoreErrors"]
+    if p1.get("override") == "contentenc":
+        args += ["-headerOverride", "Content-Encoding: gzip"]
     if p1.get("override") == "variants":
         args += ["-headerOverride", "Variants: Accept-Language;en;fr"]
     rc, so, se = run("gen-bundle", args, cwd)
